@@ -159,6 +159,10 @@ def run_case(module, case, ctx):
     except HarnessError:
         raise
     except Exception as exc:  # noqa
+        if type(exc).__name__ == "SolverError":
+            # the numerical solver gave up: a solver outcome, not a PEPit outcome -> inconclusive, counted
+            ctx.label("inconclusive:SolverError")
+            return
         frame = pepit_frame(exc.__traceback__)
         if frame is None or getattr(module, "CRASH_IS_HARNESS", False):
             raise HarnessError("harness exception on case %s: %s" % (canon(case)[:400], traceback.format_exc()))
